@@ -26,44 +26,43 @@ theorem writeAt_length (cells : List (Option UInt8)) (o : Nat) (cs : List (Optio
     (h : o + cs.length ≤ cells.length) : (writeAt cells o cs).length = cells.length := by
   simp [writeAt]; omega
 
-/-- the written range reads back -/
-theorem writeAt_slice (cells : List (Option UInt8)) (o : Nat) (cs : List (Option UInt8))
-    (h : o + cs.length ≤ cells.length) : ((writeAt cells o cs).drop o).take cs.length = cs := by
+theorem writeAt_get_lt (cells : List (Option UInt8)) (o : Nat) (cs : List (Option UInt8)) (i : Nat)
+    (h : o + cs.length ≤ cells.length) (hi : i < o) : (writeAt cells o cs)[i]? = cells[i]? := by
   unfold writeAt
-  rw [List.append_assoc, List.drop_append_of_le_length (by simp; omega)]
-  have : (List.take o cells).length = o := by simp; omega
-  rw [List.drop_of_length_le (by omega), List.nil_append, List.take_left']
-  rfl
+  rw [List.append_assoc, List.getElem?_append_left (by simp; omega)]
+  simp [hi]
 
-/-- a range before the written one is untouched -/
-theorem writeAt_slice_before (cells : List (Option UInt8)) (o : Nat) (cs : List (Option UInt8)) (o' k : Nat)
-    (h : o + cs.length ≤ cells.length) (hk : o' + k ≤ o) :
-    ((writeAt cells o cs).drop o').take k = (cells.drop o').take k := by
+theorem writeAt_get_mid (cells : List (Option UInt8)) (o : Nat) (cs : List (Option UInt8)) (i : Nat)
+    (h : o + cs.length ≤ cells.length) (hi : o ≤ i) (hi2 : i < o + cs.length) :
+    (writeAt cells o cs)[i]? = cs[i - o]? := by
+  unfold writeAt
+  rw [List.append_assoc, List.getElem?_append_right (by simp; omega)]
+  rw [List.getElem?_append_left (by simp; omega)]
+  simp
+  have : min o cells.length = o := by omega
+  rw [this]
+
+theorem writeAt_get_ge (cells : List (Option UInt8)) (o : Nat) (cs : List (Option UInt8)) (i : Nat)
+    (h : o + cs.length ≤ cells.length) (hi : o + cs.length ≤ i) :
+    (writeAt cells o cs)[i]? = cells[i]? := by
+  unfold writeAt
+  rw [List.getElem?_append_right (by simp; omega)]
+  simp
+  have : min o cells.length = o := by omega
+  rw [this]
+  congr 1; omega
+
+/-- a slice described pointwise -/
+theorem slice_eq_of_pointwise (cells : List (Option UInt8)) (o : Nat) (xs : List (Option UInt8))
+    (h : ∀ i, i < xs.length → cells[o + i]? = xs[i]?) (_hb : o + xs.length ≤ cells.length) :
+    (cells.drop o).take xs.length = xs := by
   apply List.ext_getElem?
   intro i
   simp only [List.getElem?_take, List.getElem?_drop]
-  by_cases hi : i < k
-  · simp only [hi, if_true]
-    unfold writeAt
-    rw [List.append_assoc, List.getElem?_append_left (by simp; omega)]
-    rw [List.getElem?_take]; simp; omega
-  · simp [hi]
-
-/-- two adjacent writes are one write -/
-theorem writeAt_writeAt (cells : List (Option UInt8)) (o : Nat) (xs ys : List (Option UInt8))
-    (h : o + xs.length + ys.length ≤ cells.length) :
-    writeAt (writeAt cells o xs) (o + xs.length) ys = writeAt cells o (xs ++ ys) := by
-  unfold writeAt
-  have h1 : (List.take o cells).length = o := by simp; omega
-  rw [List.take_append_of_le_length (by simp; omega)]
-  rw [List.take_append_of_le_length (by simp; omega)]
-  rw [List.take_of_length_le (by simp; omega)]
-  rw [List.drop_append_of_le_length (by simp; omega)]
-  rw [List.drop_of_length_le (by simp; omega), List.nil_append]
-  simp only [List.length_append, List.append_assoc, List.drop_drop]
-  congr 3
-  rw [List.drop_of_length_le (by simp; omega), List.nil_append]
-  congr 1; simp; omega
+  by_cases hi : i < xs.length
+  · simp only [hi, if_true]; exact h i hi
+  · simp only [hi, if_false]
+    rw [List.getElem?_eq_none (by omega)]
 
 theorem allSome_map_some (bs : Bytes) : allSome (bs.map some) = some bs := by
   induction bs with
@@ -112,6 +111,220 @@ theorem cPrefix_take (s rest : Bytes) :
 
 theorem cPrefix_length_le (s : Bytes) : (ByteStr.cPrefix s).length ≤ s.length := by
   unfold ByteStr.cPrefix
-  exact List.length_takeWhile_le _ _
+  exact (List.takeWhile_sublist _).length_le
+
+/-! ### event-log discipline -/
+theorem nouaf_snoc (t : List Ev) (e : Ev) (h : ByteStr.NoUseAfterFree t)
+    (he : ∀ id, (e = .read id ∨ e = .write id ∨ e = .free id) → Ev.free id ∉ t) :
+    ByteStr.NoUseAfterFree (t ++ [e]) := by
+  intro t1 t2 id heq
+  rcases List.eq_nil_or_concat t2 with h2 | ⟨t2', e', h2⟩
+  · subst h2; simp
+  · rw [List.concat_eq_append] at h2
+    subst h2
+    have heq' : t ++ [e] = (t1 ++ Ev.free id :: t2') ++ [e'] := by simp [heq]
+    have := List.append_inj' heq' rfl
+    obtain ⟨ht, he'⟩ := this
+    have he'' : e = e' := by simpa using he'
+    subst he''
+    obtain ⟨h1, h2, h3⟩ := h t1 t2' id ht
+    have hmem : Ev.free id ∈ t := by rw [ht]; simp
+    refine ⟨?_, ?_, ?_⟩
+    · intro hc
+      rcases List.mem_append.mp hc with hc | hc
+      · exact h1 hc
+      · simp at hc; exact he id (Or.inl hc.symm) hmem
+    · intro hc
+      rcases List.mem_append.mp hc with hc | hc
+      · exact h2 hc
+      · simp at hc; exact he id (Or.inr (Or.inl hc.symm)) hmem
+    · intro hc
+      rcases List.mem_append.mp hc with hc | hc
+      · exact h3 hc
+      · simp at hc; exact he id (Or.inr (Or.inr hc.symm)) hmem
+
+
+/-! ### memory invariant -/
+def liveAt (heap : List Block) (id : Nat) : Option Bool := (heap[id]?).map (·.live)
+
+def freesFor : Option Bool → Nat
+  | some false => 1
+  | _ => 0
+
+structure MemInv (m : Mem) : Prop where
+  cells : ∀ (id : Nat) (b : Block), m.heap[id]? = some b → b.cells.length = b.size
+  frees : ∀ id, m.trace.count (Ev.free id) = freesFor (liveAt m.heap id)
+  mallocs : ∀ id, (m.trace.filter (Ev.isMallocOf id)).length = if id < m.heap.length then 1 else 0
+  nouaf : ByteStr.NoUseAfterFree m.trace
+
+theorem MemInv.empty : MemInv {} := by
+  refine ⟨?_, ?_, ?_, ?_⟩
+  · intro id b h; simp at h
+  · intro id; simp [liveAt, freesFor]
+  · intro id; simp
+  · intro t1 t2 id h; simp at h
+
+theorem liveAt_some {heap : List Block} {id : Nat} {b : Block} (h : heap[id]? = some b) :
+    liveAt heap id = some b.live := by simp [liveAt, h]
+
+theorem free_notin_of_live {m : Mem} (h : MemInv m) {id : Nat} {b : Block} (hb : m.heap[id]? = some b)
+    (hl : b.live = true) : Ev.free id ∉ m.trace := by
+  have := h.frees id
+  rw [liveAt_some hb, hl] at this
+  simp only [freesFor] at this
+  exact List.count_eq_zero.mp this
+
+/-- appending a read/write of a live block; the heap may change but keeps lengths, liveness, sizes -/
+theorem MemInv.access {m : Mem} (h : MemInv m) (e : Ev) (id : Nat) (b : Block) (heap' : List Block)
+    (he : e = .read id ∨ e = .write id) (hb : m.heap[id]? = some b) (hl : b.live = true)
+    (hlen : heap'.length = m.heap.length) (hlive : ∀ i, liveAt heap' i = liveAt m.heap i)
+    (hcells : ∀ (i : Nat) (b' : Block), heap'[i]? = some b' → b'.cells.length = b'.size) :
+    MemInv { heap := heap', trace := m.trace ++ [e] } := by
+  refine ⟨hcells, ?_, ?_, ?_⟩
+  · intro i
+    dsimp only
+    rw [hlive i, ← h.frees i, List.count_append]
+    rcases he with he | he <;> subst he <;> simp
+  · intro i
+    dsimp only
+    rw [hlen, ← h.mallocs i, List.filter_append]
+    rcases he with he | he <;> subst he <;> simp [Ev.isMallocOf]
+  · dsimp only
+    apply nouaf_snoc _ _ h.nouaf
+    intro j hj
+    have hnot := free_notin_of_live h hb hl
+    rcases he with he | he <;> subst he <;> rcases hj with hj | hj | hj <;> simp at hj <;> subst hj <;> exact hnot
+
+theorem malloc_ok (m : Mem) (sz : Nat) (h : MemInv m) :
+    ∃ m', m.malloc sz true = (m', some m.heap.length) ∧
+      m'.heap = m.heap ++ [{ size := sz, cells := List.replicate sz none, live := true }] ∧ MemInv m' := by
+  refine ⟨{ heap := m.heap ++ [{ size := sz, cells := List.replicate sz none, live := true }],
+            trace := m.trace ++ [.malloc m.heap.length sz] }, by simp [Mem.malloc], rfl, ?_, ?_, ?_, ?_⟩
+  · intro id b hb
+    dsimp only at hb
+    rcases Nat.lt_or_ge id m.heap.length with hlt | hge
+    · rw [List.getElem?_append_left hlt] at hb; exact h.cells id b hb
+    · rw [List.getElem?_append_right hge] at hb
+      rcases Nat.eq_zero_or_pos (id - m.heap.length) with h0 | hp
+      · rw [h0] at hb; simp at hb; subst hb; simp
+      · rw [List.getElem?_eq_none (by simp; omega)] at hb; simp at hb
+  · intro id
+    dsimp only
+    rw [List.count_append]
+    have : List.count (Ev.free id) [Ev.malloc m.heap.length sz] = 0 := by simp
+    rw [this, Nat.add_zero, h.frees id]
+    unfold liveAt
+    rcases Nat.lt_or_ge id m.heap.length with hlt | hge
+    · rw [List.getElem?_append_left hlt]
+    · rw [List.getElem?_eq_none hge, List.getElem?_append_right hge]
+      rcases Nat.eq_zero_or_pos (id - m.heap.length) with h0 | hp
+      · rw [h0]; simp [freesFor]
+      · rw [List.getElem?_eq_none (by simp; omega)]
+  · intro id
+    dsimp only
+    rw [List.filter_append, List.length_append, h.mallocs id]
+    by_cases hid : m.heap.length = id
+    · subst hid; simp [Ev.isMallocOf]
+    · simp [Ev.isMallocOf, hid]
+      split <;> split <;> omega
+  · dsimp only
+    apply nouaf_snoc _ _ h.nouaf
+    intro j hj
+    rcases hj with hj | hj | hj <;> simp at hj
+
+theorem malloc_fail (m : Mem) (sz : Nat) (h : MemInv m) :
+    ∃ m', m.malloc sz false = (m', none) ∧ m'.heap = m.heap ∧ MemInv m' := by
+  refine ⟨{ m with trace := m.trace ++ [.mallocFail sz] }, by simp [Mem.malloc], rfl, h.cells, ?_, ?_, ?_⟩
+  · intro id; dsimp only; rw [List.count_append, h.frees id]; simp
+  · intro id; dsimp only; rw [List.filter_append, List.length_append, h.mallocs id]; simp [Ev.isMallocOf]
+  · dsimp only
+    apply nouaf_snoc _ _ h.nouaf
+    intro j hj
+    rcases hj with hj | hj | hj <;> simp at hj
+
+theorem liveAt_set (heap : List Block) (id : Nat) (b' : Block) (i : Nat) (hid : id < heap.length) :
+    liveAt (heap.set id b') i = if i = id then some b'.live else liveAt heap i := by
+  unfold liveAt
+  by_cases hi : i = id
+  · subst hi; simp [hid]
+  · rw [List.getElem?_set_ne (Ne.symm hi)]; simp [hi]
+
+theorem free_ok (m : Mem) (id : Nat) (b : Block) (site : String) (h : MemInv m)
+    (hb : m.heap[id]? = some b) (hl : b.live = true) :
+    ∃ m', m.free id site = .ok m' ∧ m'.heap = m.heap.set id { b with live := false } ∧ MemInv m' := by
+  have hid : id < m.heap.length := by
+    rcases Nat.lt_or_ge id m.heap.length with hlt | hge
+    · exact hlt
+    · rw [List.getElem?_eq_none hge] at hb; simp at hb
+  refine ⟨{ heap := m.heap.set id { b with live := false }, trace := m.trace ++ [.free id] },
+    by simp [Mem.free, hb, hl], rfl, ?_, ?_, ?_, ?_⟩
+  · intro i b' hb'
+    dsimp only at hb'
+    by_cases hi : i = id
+    · subst hi; rw [List.getElem?_set_self hid] at hb'; simp at hb'; subst hb'; exact h.cells _ b hb
+    · rw [List.getElem?_set_ne (Ne.symm hi)] at hb'; exact h.cells _ _ hb'
+  · intro i
+    dsimp only
+    rw [List.count_append, h.frees i, liveAt_set _ _ _ _ hid]
+    by_cases hi : i = id
+    · subst hi; simp [liveAt_some hb, hl, freesFor]
+    · have : Ev.free id ≠ Ev.free i := by intro hc; injection hc with hc; exact hi hc.symm
+      simp [hi, this]
+  · intro i
+    dsimp only
+    rw [List.filter_append, List.length_append, h.mallocs i, List.length_set]; simp [Ev.isMallocOf]
+  · dsimp only
+    apply nouaf_snoc _ _ h.nouaf
+    intro j hj
+    have hnot := free_notin_of_live h hb hl
+    rcases hj with hj | hj | hj <;> simp at hj
+    subst hj; exact hnot
+
+theorem store_ok (m : Mem) (id o : Nat) (cs : List (Option UInt8)) (b : Block) (site : String) (h : MemInv m)
+    (hb : m.heap[id]? = some b) (hl : b.live = true) (hbd : o + cs.length ≤ b.size) :
+    ∃ m', m.store id o cs site = .ok m' ∧
+      m'.heap = m.heap.set id { b with cells := writeAt b.cells o cs } ∧ MemInv m' := by
+  have hid : id < m.heap.length := by
+    rcases Nat.lt_or_ge id m.heap.length with hlt | hge
+    · exact hlt
+    · rw [List.getElem?_eq_none hge] at hb; simp at hb
+  have hc := h.cells id b hb
+  refine ⟨{ heap := m.heap.set id { b with cells := writeAt b.cells o cs }, trace := m.trace ++ [.write id] }, ?_, rfl, ?_⟩
+  · unfold Mem.store
+    simp only [hb, hl]
+    rw [if_neg (by simp), if_neg (by omega)]
+  · apply MemInv.access h (.write id) id b _ (Or.inr rfl) hb hl (by simp)
+    · intro i
+      rw [liveAt_set _ _ _ _ hid]
+      by_cases hi : i = id
+      · subst hi; simp [liveAt_some hb]
+      · simp [hi]
+    · intro i b' hb'
+      by_cases hi : i = id
+      · subst hi; rw [List.getElem?_set_self hid] at hb'; simp at hb'; subst hb'
+        dsimp only; rw [writeAt_length _ _ _ (by omega)]; exact hc
+      · rw [List.getElem?_set_ne (Ne.symm hi)] at hb'; exact h.cells _ _ hb'
+
+theorem load_ok (m : Mem) (id o n : Nat) (b : Block) (site : String) (bs : Bytes) (h : MemInv m)
+    (hb : m.heap[id]? = some b) (hl : b.live = true) (hbd : o + n ≤ b.size)
+    (hs : (b.cells.drop o).take n = bs.map some) :
+    ∃ m', m.load id o n site = .ok (m', bs) ∧ m'.heap = m.heap ∧ MemInv m' := by
+  have hc := h.cells id b hb
+  refine ⟨{ m with trace := m.trace ++ [.read id] }, ?_, rfl, ?_⟩
+  · unfold Mem.load
+    simp only [hb, hl]
+    rw [if_neg (by simp), if_neg (by omega), hs, allSome_map_some]
+  · exact MemInv.access h (.read id) id b _ (Or.inl rfl) hb hl rfl (fun _ => rfl) h.cells
+
+theorem strlen_ok (m : Mem) (id o : Nat) (b : Block) (site : String) (s : Bytes) (rest : List (Option UInt8))
+    (h : MemInv m) (hb : m.heap[id]? = some b) (hl : b.live = true) (hbd : o ≤ b.size)
+    (hs : b.cells.drop o = (s ++ [0]).map some ++ rest) :
+    ∃ m', m.strlen id o site = .ok (m', (ByteStr.cPrefix s).length) ∧ m'.heap = m.heap ∧ MemInv m' := by
+  have hc := h.cells id b hb
+  refine ⟨{ m with trace := m.trace ++ [.read id] }, ?_, rfl, ?_⟩
+  · unfold Mem.strlen
+    simp only [hb, hl]
+    rw [if_neg (by simp), if_neg (by omega), hs, scanNul_holds]
+  · exact MemInv.access h (.read id) id b _ (Or.inl rfl) hb hl rfl (fun _ => rfl) h.cells
 
 end JsonC.StrStore
